@@ -869,7 +869,25 @@ impl<'a> GeneratorState<'a> {
                     }
                 }
             },
-            Expr::FunctionCall(expr, params) => self.generate_function_call(expr, params, pos),
+            Expr::FunctionCall(expr, params) => {
+                if high_byte {
+                    // The function has been called for the low byte already (calling it again would run its
+                    // side effects twice): an 8 bits unsigned result has no high byte
+                    if let Expr::Identifier(name, _) = &**expr {
+                        if let Some(f) = self.compiler_state.functions.get(name) {
+                            if f.return_signed {
+                                return Err(self.compiler_state.syntax_error(
+                                    "Signed function result can't be used in a 16 bits expression. Please use an intermediate variable",
+                                    pos,
+                                ));
+                            }
+                        }
+                    }
+                    Ok(ExprType::Immediate(0))
+                } else {
+                    self.generate_function_call(expr, params, pos)
+                }
+            }
             Expr::MinusMinus(expr, false) => {
                 let expr_type = self.generate_expr(expr, pos, high_byte, high_byte)?;
                 if !second_time {
